@@ -5,6 +5,13 @@
 (* Priorities are small naturals so that proportionality is a counting        *)
 (* statement over "ticks": the uniform variate u is represented by the        *)
 (* half-integer point tick - 1/2 of the cumulative priority mass.             *)
+(* A model priority p stands for the real priority p / Default, where Default *)
+(* is the model value of the tracked maximum of a fresh buffer (max_priority  *)
+(* = 1.0 in the code): with Default = 2 and PrioVals = {1, 3} update_priority *)
+(* writes 0.5 and 1.5, i.e. values BELOW and ABOVE the initial maximum, and   *)
+(* histories in which every stored priority lies below it are reachable       *)
+(* (LAP with a minimum priority < 1, PER priorities |delta|^alpha + eps).     *)
+(* Sampling, strata and importance weights do not depend on the unit.         *)
 EXTENDS Integers, Sequences, FiniteSets, TLC, Json, Exact
 
 CONSTANTS K,         \* number of tasks (1 = bare buffer)
@@ -26,11 +33,19 @@ View == [bufs |-> [t \in Tasks |-> bufs[t]], sel |-> sel, active |-> active,
 
 Min(a, b) == IF a < b THEN a ELSE b
 Max(a, b) == IF a < b THEN b ELSE a
+
+(* the initial tracked maximum in model units.  A definition, not a CONSTANT, so that configurations that do   *)
+(* not mention it (spec/apalache/RingPrioRefines*.cfg, other drivers) keep the unit lattice Default = 1; a      *)
+(* configuration selects another lattice by the definition override  CONSTANT Default <- Default2.              *)
+Default == 1
+Default2 == 2
+Default4 == 4
+
 Emit(op, args, exp) ==
   EMIT => PrintT(<<"EMIT", ToJson([pre |-> View, op |-> op, args |-> args, exp |-> exp, post |-> View'])>>)
 
 Empty == [store |-> [i \in 1..N |-> 0], prio |-> [i \in 1..N |-> 0], ins |-> 0, len |-> 0,
-          maxPrio |-> 1, sampled |-> <<>>]
+          maxPrio |-> Default, sampled |-> <<>>]
 Init == /\ bufs = [t \in Tasks |-> Empty] /\ sel = 0 /\ active = {} /\ sampledTask = -1 /\ cnt = 0 /\ last = "init"
 
 Select(k) == /\ K > 1 /\ k \in Tasks /\ sel' = k /\ last' = "select"
@@ -98,12 +113,13 @@ UpdatePriority(vals) ==
   /\ UNCHANGED <<sel, active, sampledTask, cnt>> /\ last' = "update"
   /\ Emit("UpdatePriority", <<vals>>, <<>>)
 
-(* reset_max_priority: every task's tracked maximum becomes its true maximum *)
+(* the true maximum: the largest stored priority of the filled region (b.len > 0) *)
+TrueMax(b) == SeqMax([i \in 1..b.len |-> b.prio[i]], b.len)
+(* reset_max_priority: every task's tracked maximum becomes its true maximum - whether that lies above, at or *)
+(* below the initial value Default; an empty buffer keeps its tracked maximum                                  *)
 ResetMax ==
   /\ bufs' = [t \in Tasks |->
-       [bufs[t] EXCEPT !.maxPrio = IF bufs[t].len > 0
-                                   THEN SeqMax([i \in 1..bufs[t].len |-> bufs[t].prio[i]], bufs[t].len)
-                                   ELSE bufs[t].maxPrio]]
+       [bufs[t] EXCEPT !.maxPrio = IF bufs[t].len > 0 THEN TrueMax(bufs[t]) ELSE bufs[t].maxPrio]]
   /\ UNCHANGED <<sel, active, sampledTask, cnt>> /\ last' = "reset"
   /\ Emit("ResetMax", <<>>, <<>>)
 
@@ -134,21 +150,37 @@ UpdateFrame == [][\A t \in Tasks : \A i \in 1..N :
                    (bufs'[t].prio[i] # bufs[t].prio[i] /\ last' = "update")
                      => (t = sampledTask /\ \E j \in 1..Len(bufs[t].sampled) : bufs[t].sampled[j] + 1 = i)]_vars
 (* after a reset the tracked maximum is the true maximum *)
-ResetExact == last = "reset" => \A t \in Tasks : bufs[t].len > 0 =>
-                 bufs[t].maxPrio = SeqMax([i \in 1..bufs[t].len |-> bufs[t].prio[i]], bufs[t].len)
+ResetExact == last = "reset" => \A t \in Tasks : bufs[t].len > 0 => bufs[t].maxPrio = TrueMax(bufs[t])
+(* ... hence the transition added right after a reset receives the true maximum of the buffer it goes to *)
+NewAfterReset == [][(last = "reset" /\ last' = "add" /\ bufs[sel].len > 0)
+                      => bufs'[sel].prio[bufs[sel].ins + 1] = TrueMax(bufs[sel])]_vars
+(* the situations a reset has to get right, as reachability targets (the driver requires TLC to REFUTE the     *)
+(* negations in the lattices it uses, otherwise the lattice is too poor): at a reset every stored priority is  *)
+(* below / above the initial maximum                                                                            *)
+AllBelow(b) == b.len > 0 /\ \A i \in 1..b.len : b.prio[i] < Default
+AllAbove(b) == b.len > 0 /\ \A i \in 1..b.len : b.prio[i] > Default
+NoResetAllBelow == ~(last = "reset" /\ \E t \in Tasks : AllBelow(bufs[t]) /\ bufs[t].len = N)
+NoResetAllAbove == ~(last = "reset" /\ \E t \in Tasks : AllAbove(bufs[t]) /\ bufs[t].len = N)
 
-(* canary: a new transition gets priority 1 instead of the current maximum - proportionality *)
-(* still holds but MaxIsInitial fails                                                         *)
+(* canary: a new transition gets the initial priority (1.0) instead of the current maximum -  *)
+(* proportionality still holds but NewGetsMax fails                                           *)
 NewGetsMax == [][\A t \in Tasks : (cnt' = cnt + 1 /\ bufs'[t] # bufs[t])
                    => bufs'[t].prio[bufs[t].ins + 1] = bufs[t].maxPrio]_vars
 AddBad == /\ cnt < MaxAdds
           /\ LET b == bufs[sel] IN
                bufs' = [bufs EXCEPT ![sel] =
                          [b EXCEPT !.store = [b.store EXCEPT ![b.ins + 1] = cnt + 1],
-                                   !.prio  = [b.prio EXCEPT ![b.ins + 1] = 1],
+                                   !.prio  = [b.prio EXCEPT ![b.ins + 1] = Default],
                                    !.ins = (b.ins + 1) % N, !.len = Min(b.len + 1, N)]]
           /\ active' = active \cup {sel} /\ cnt' = cnt + 1 /\ last' = "add"
           /\ UNCHANGED <<sel, sampledTask>>
+(* canary: the initial value as a floor of the recomputed maximum (max(true maximum, 1.0)) - only a lattice   *)
+(* with priorities below Default can tell it from ResetMax: ResetExact and NewAfterReset must fail              *)
+ResetMaxFloor ==
+  /\ bufs' = [t \in Tasks |-> [bufs[t] EXCEPT !.maxPrio = IF bufs[t].len > 0 THEN Max(Default, TrueMax(bufs[t])) ELSE Default]]
+  /\ UNCHANGED <<sel, active, sampledTask, cnt>> /\ last' = "reset"
+NextBadReset == (\E k \in Tasks : Select(k)) \/ Add \/ (\E t \in active : \E tv \in TickVectors(bufs[t]) : Sample(t, tv))
+                \/ (\E n \in 1..MaxBatch : \E v \in [1..n -> PrioVals] : UpdatePriority(v)) \/ ResetMaxFloor
 NextBad == AddBad \/ (\E t \in active : \E tv \in TickVectors(bufs[t]) : Sample(t, tv))
            \/ (\E n \in 1..MaxBatch : \E v \in [1..n -> PrioVals] : UpdatePriority(v))
 =============================================================================
